@@ -108,6 +108,10 @@ func (this *DatasetManager) Create(ctx context.Context, dataset *pb.Dataset) (*D
 	if dataset.GetDimension() == 0 || dataset.GetPartitionCount() == 0 || dataset.GetReplicationFactor() == 0 {
 		return nil, InvalidDatasetConfigErr
 	}
+	if _, known := pb.Space_name[int32(dataset.GetSpace())]; !known {
+		// an index without a metric would panic on every replica when the second item is applied
+		return nil, InvalidDatasetConfigErr
+	}
 
 	ctx, cancelCtx := context.WithTimeout(ctx, 1*time.Second)
 	defer cancelCtx()
